@@ -316,3 +316,75 @@ def finish(res, claim, t_start, extra_cov=None):
     print(f"OK property={res.pid} obligations={n_ob} discharged={n_dis} "
           f"({', '.join(f'{k}:{v[1]}/{v[0]}' for k, v in by_backend.items())}) wall={ev['wall_s']}s")
     return 0
+
+
+# ------------------------------------------------------------------------------------------- engine R
+
+def load_ring_module(name):
+    d = os.path.join(SPECS, "ring")
+    if d not in sys.path:
+        sys.path.insert(0, d)
+    import importlib
+    if name in sys.modules:
+        return sys.modules[name]
+    return importlib.import_module(name)
+
+
+def run_r(res, module_names, select=None, root=None, seed=0):
+    """Run ring/trace units.  select: predicate on unit name."""
+    from . import ring
+    root = root or core.REPO
+    t0 = time.time()
+    contracts = {}
+    units = []
+    for mn in module_names:
+        m = load_ring_module(mn)
+        contracts.update(m.CONTRACTS)
+        units += m.UNITS
+    n = 0
+    for u in units:
+        if select and not select(u.name):
+            continue
+        n += 1
+        try:
+            obs, calls = ring.run_unit(root, u, contracts, seed=seed)
+        except ring.OutsideFragment as e:
+            res.undecided.append(f"R unit {u.name}: outside the fragment: {e}")
+            continue
+        except ring.AstLost as e:
+            res.undecided.append(f"R unit {u.name}: lost anchor: {e}")
+            continue
+        for o in obs:
+            res.add_ob(**o)
+        # vacuity guard for R: the same unit against a perturbed contract must FAIL
+        try:
+            pobs, _ = ring.run_unit(root, u, contracts, seed=seed, perturb=_perturb)
+            if all(o["status"] == "discharged" for o in pobs):
+                res.undecided.append(f"R unit {u.name}: perturbed contract was NOT refuted (vacuous comparison)")
+        except (ring.OutsideFragment, ring.AstLost):
+            pass
+        res.units.append({"unit": u.name, "fn": u.fn, "file": u.file, "backend": "ringcheck",
+                          "callee_contracts_used": sorted(set(calls))})
+    res.solver_time["ringcheck_wall_s"] = round(time.time() - t0, 2)
+    res.cmds.append("ringcheck: symbolic execution of the real fn AST (vfx ast) + exact polynomial normal form")
+    if not getattr(res, "checker_cmd", None):
+        res.checker_cmd = "./check %s  (ringcheck: vfx ast <file> <fn> | vlib/ring.py | vlib/poly.py normal form)" % res.pid
+    return n
+
+
+def _perturb(out):
+    from .poly import Poly, C
+    from . import ring
+    o2 = dict(out)
+    for k, v in out.items():
+        if isinstance(v, (Poly, ring.Sym)):
+            o2[k] = ring.as_poly(v) + C(1)
+            return o2
+        if isinstance(v, list) and v:
+            o2[k] = v[:-1]
+            return o2
+    for k, v in out.items():
+        if isinstance(v, int):
+            o2[k] = v + 1
+            return o2
+    return o2
